@@ -577,3 +577,99 @@ func ruleR076(c *Ctx) {
 		c.OK("repo#addresses-of-slice-elements", token.NoPos, "no address of an element of a slice that the same function appends to is taken")
 	}
 }
+
+// ---------------------------------------------------------------------------
+// R07.7 one number syntax: the conversions from text to a number inside the
+// value package (string methods, helpers) read the same syntax as the number
+// parser of the language (the NumberParser implementation the generator is
+// configured with). Sibling agreement: the reference is what ParseNumber does
+// today, normalised to (kind, base): strconv.Atoi(s) = ParseInt(s, 10, _).
+// `"010".toInt()` and the literal `010` must not denote different numbers.
+
+type numSyntax struct {
+	kind string // "int" or "float"
+	base string // constant base of an integer parser; "" for floats; "?" if not constant
+}
+
+func numSyntaxOf(info *types.Info, call *ast.CallExpr) (numSyntax, bool) {
+	cal := Callee(info, call)
+	if cal == nil || cal.Pkg() == nil || cal.Pkg().Path() != "strconv" {
+		return numSyntax{}, false
+	}
+	switch cal.Name() {
+	case "Atoi":
+		return numSyntax{"int", "10"}, true
+	case "ParseInt", "ParseUint":
+		if len(call.Args) >= 2 {
+			if tv, ok := info.Types[call.Args[1]]; ok && tv.Value != nil {
+				return numSyntax{"int", tv.Value.ExactString()}, true
+			}
+		}
+		return numSyntax{"int", "?"}, true
+	case "ParseFloat":
+		return numSyntax{"float", ""}, true
+	}
+	return numSyntax{}, false
+}
+
+func ruleR077(c *Ctx) {
+	vp := c.Pkg("value")
+	if vp == nil {
+		c.Undecided("package value", token.NoPos, "not found")
+		return
+	}
+	info := vp.TypesInfo
+	ref := c.FuncDecl(vp, "FunctionGenerator", "ParseNumber")
+	if ref == nil {
+		c.Undecided("value.FunctionGenerator.ParseNumber", token.NoPos, "the number parser of the language was not found")
+		return
+	}
+	want := map[string]string{}
+	ast.Inspect(ref.Body, func(n ast.Node) bool {
+		if call, ok := n.(*ast.CallExpr); ok {
+			if ns, ok := numSyntaxOf(info, call); ok {
+				want[ns.kind] = ns.base
+			}
+		}
+		return true
+	})
+	if len(want) == 0 {
+		c.Undecided("value.FunctionGenerator.ParseNumber", ref.Pos(), "no strconv parser call found in the number parser of the language")
+		return
+	}
+	n := 0
+	forEachFuncBody([]*packages.Package{vp}, func(pkg *packages.Package, fn ast.Node, body *ast.BlockStmt) {
+		if fn == ast.Node(ref) {
+			return
+		}
+		ord := 0
+		inspectNoLit(body, func(x ast.Node) bool {
+			call, ok := x.(*ast.CallExpr)
+			if !ok {
+				return true
+			}
+			ns, ok := numSyntaxOf(info, call)
+			if !ok {
+				return true
+			}
+			ord++
+			n++
+			key := fmt.Sprintf("%s#parse-%s[%d]", c.FuncName(fn)+litSuffix(c, fn), ns.kind, ord)
+			w, has := want[ns.kind]
+			switch {
+			case !has:
+				c.OK(key, call.Pos(), "the language has no %s literals of its own; nothing to agree with", ns.kind)
+			case ns.base == "?":
+				c.Undecided(key, call.Pos(), "the base of this integer parser is not a constant")
+			case ns.base != w:
+				c.Violation(key, call.Pos(), "this conversion reads integers with base %s, the number parser of the language (ParseNumber) with base %s: a text like \"010\" (or \"0x10\", \"1_000\") converted at run time denotes another number than the same text written as a literal, or is accepted by one and rejected by the other", ns.base, w)
+			default:
+				c.OK(key, call.Pos(), "same number syntax as the number parser of the language (%s, base %q)", ns.kind, w)
+			}
+			return true
+		})
+	})
+	if n == 0 {
+		c.Undecided("value#text-to-number", token.NoPos, "no text to number conversion found besides the number parser (toInt/toFloat expected)")
+	}
+}
